@@ -13,6 +13,7 @@ full statement is refuted by `aipsw_stab_not_dr`, the proved part is `aipsw_dr_w
 import ZepidVerif.Lemmas.Aipw
 import ZepidVerif.Lemmas.Generalize
 import ZepidVerif.Props.C16
+import ZepidVerif.Lemmas.TmleDR
 import Mathlib.Algebra.Order.Field.Rat
 import Mathlib.Tactic.NormNum
 set_option linter.unusedSectionVars false
@@ -55,6 +56,135 @@ theorem aipsw_dr_weights_partial (l : List (Row F)) (S : List Nat) (hS : Strata 
         (aipswOmega generalize false (fun _ => 1) (fun r => π r.s) (popTreatWeight false (fun _ => 1) (fun r => p r.s))) a
       = std l S (genTarget generalize) a :=
   P16.aipsw_weights_saturated_unstab l S hS hpos generalize Q a π hπ p hp
+
+/-! ### TMLE
+
+`Model/Tmle.lean` is the model of `TMLE.fit` that the driver executes (C03).  Here its rows carry the
+nuisance predictions of their covariate stratum (`toT`); TMLE takes no frequency weights (`r.w = 1`).
+`e1 e2` are the fluctuation coefficients; the hypotheses `eff1 = 0`, `eff0 = 0` are the efficient-score
+equations, which `P03.score_equations` derives from the fluctuation GLM's own score equations. -/
+
+/-- **TMLE, treatment (and missingness) model saturated**, initial outcome predictions arbitrary functions of
+    (stratum, arm): the plug-in risks are the standardized risks. -/
+theorem tmle_dr_treatment (σ lg : F → F) (l : List (Row F)) (S : List Nat) (hS : Strata l S) (hpos : Positivity l S)
+    (hw : ∀ r ∈ l, r.w = 1) (Q : Nat → Bool → F) (p : Nat → F) (hp : PropFit l S p)
+    (q : Nat → Bool → F) (hq : MissFit l S q) (e1 e2 : F) :
+    let g1 := fun s => p s * q s true
+    let g0 := fun s => (1 - p s) * q s false
+    Tmle.eff1 σ lg e1 (l.map (toT Q g1 g0)) = 0 → Tmle.eff0 σ lg e2 (l.map (toT Q g1 g0)) = 0 →
+    Tmle.risk1Of (Tmle.targets σ lg e1 e2 (l.map (toT Q g1 g0))) = std l S Tgt.pop.mem true ∧
+    Tmle.risk0Of (Tmle.targets σ lg e1 e2 (l.map (toT Q g1 g0))) = std l S Tgt.pop.mem false := by
+  intro g1 g0 h1 h0
+  rw [eff1_eq σ lg e1 l hw Q g1 g0] at h1
+  rw [eff0_eq σ lg e2 l hw Q g1 g0] at h0
+  rw [risk1_eq σ lg e1 e2 l hw Q g1 g0, risk0_eq σ lg e1 e2 l hw Q g1 g0]
+  -- the targeted predictions as a function of (stratum, arm)
+  let Qs : Nat → Bool → F := fun s a => if a then σ (lg (Q s true) + e1 / g1 s) else σ (lg (Q s false) - e2 / g0 s)
+  have c1 : gformula l (fun r _ => σ (lg (Q r.s true) + e1 / g1 r.s)) Tgt.pop.mem true
+      = gformula l (fun r => Qs r.s) Tgt.pop.mem true := gformula_congr l _ _ _ true (fun r _ => by simp [Qs])
+  have c0 : gformula l (fun r _ => σ (lg (Q r.s false) - e2 / g0 r.s)) Tgt.pop.mem false
+      = gformula l (fun r => Qs r.s) Tgt.pop.mem false := gformula_congr l _ _ _ false (fun r _ => by simp [Qs])
+  rw [c1, c0]
+  have facts : ∀ s ∈ S, p s ≠ 0 ∧ 1 - p s ≠ 0 ∧ q s true ≠ 0 ∧ q s false ≠ 0 ∧
+      W (inCell s true) l = q s true * (p s * W (inStratum s) l) ∧
+      W (inCell s false) l = q s false * ((1 - p s) * W (inStratum s) l) := by
+    intro s hs
+    obtain ⟨hp0, hp1⟩ := hp.mem_Ioo hpos hs
+    have hc1 := (hpos.cell_pos hs true).ne'
+    have hc0 := (hpos.cell_pos hs false).ne'
+    have q1 := hq s hs true
+    have q0 := hq s hs false
+    have e := hp s hs
+    have sp := W_stratum_split l s
+    refine ⟨hp0.ne', (sub_pos.mpr hp1).ne', fun h => hc1 (by rw [← q1, h, zero_mul]),
+      fun h => hc0 (by rw [← q0, h, zero_mul]), ?_, ?_⟩
+    · rw [← q1, e]
+    · rw [← q0, sub_mul, one_mul, e, sp]; ring
+  constructor
+  · refine gformula_of_score l S hS hpos _ true Qs (fun r => 1 / g1 r.s) (fun s => 1 / g1 s) 1 one_ne_zero
+      (fun _ _ _ _ => rfl) ?_ ?_
+    · intro s hs
+      obtain ⟨a1, a2, a3, a4, a5, a6⟩ := facts s hs
+      have : Ntgt Tgt.pop.mem l s = W (inStratum s) l := by
+        unfold Ntgt W; apply sumIf_congr; intro r _; simp [Tgt.mem]
+      rw [this, a5]; simp only [g1]; field_simp
+    · simpa [Qs] using h1
+  · refine gformula_of_score l S hS hpos _ false Qs (fun r => 1 / g0 r.s) (fun s => 1 / g0 s) 1 one_ne_zero
+      (fun _ _ _ _ => rfl) ?_ ?_
+    · intro s hs
+      obtain ⟨a1, a2, a3, a4, a5, a6⟩ := facts s hs
+      have : Ntgt Tgt.pop.mem l s = W (inStratum s) l := by
+        unfold Ntgt W; apply sumIf_congr; intro r _; simp [Tgt.mem]
+      rw [this, a6]; simp only [g0]; field_simp
+    · simpa [Qs] using h0
+
+/-- **TMLE, outcome model saturated**, treatment probabilities arbitrary positive functions of the stratum
+    (misspecified, bounded, with or without a missingness model).  `σ` strictly increasing and `σ ∘ lg` the
+    identity on the initial predictions (true of expit/logit on (0,1): `P03.expit_logit_real`).  The score equation
+    has the root ε = 0 (saturated outcome model) and no other (strict monotonicity), so targeting leaves the
+    predictions unchanged and the plug-in risks are the standardized risks. -/
+theorem tmle_dr_outcome (σ lg : F → F) (hσ : StrictMono σ) (l : List (Row F)) (S : List Nat) (hS : Strata l S)
+    (hS0 : S ≠ []) (hpos : Positivity l S) (hw : ∀ r ∈ l, r.w = 1) (Q : Nat → Bool → F) (hQ : OutFit l S Q)
+    (hσlg : ∀ s ∈ S, ∀ a, σ (lg (Q s a)) = Q s a) (g1 g0 : Nat → F) (hg1 : ∀ s, 0 < g1 s) (hg0 : ∀ s, 0 < g0 s)
+    (e1 e2 : F) (h1 : Tmle.eff1 σ lg e1 (l.map (toT Q g1 g0)) = 0)
+    (h0 : Tmle.eff0 σ lg e2 (l.map (toT Q g1 g0)) = 0) :
+    e1 = 0 ∧ e2 = 0 ∧
+    Tmle.risk1Of (Tmle.targets σ lg e1 e2 (l.map (toT Q g1 g0))) = std l S Tgt.pop.mem true ∧
+    Tmle.risk0Of (Tmle.targets σ lg e1 e2 (l.map (toT Q g1 g0))) = std l S Tgt.pop.mem false := by
+  rw [eff1_eq σ lg e1 l hw Q g1 g0] at h1
+  rw [eff0_eq σ lg e2 l hw Q g1 g0] at h0
+  obtain ⟨s₀, hs₀⟩ := List.exists_mem_of_ne_nil S hS0
+  -- arm 1
+  have z1 := arm_score_zero σ l S hS true g1 Q hQ (fun s => lg (Q s true)) (fun s hs => hσlg s hs true)
+  have he1 : e1 = 0 := by
+    rw [arm_score_form σ l hw true g1 (fun s => lg (Q s true)) e1] at h1
+    rw [arm_score_form σ l hw true g1 (fun s => lg (Q s true)) 0] at z1
+    obtain ⟨r₀, hr₀, hc⟩ := hpos.2 s₀ hs₀ true
+    refine score_root_unique σ hσ l _ _ _ ?_ r₀ hr₀ ?_ e1 0 h1 z1
+    · intro r _; split
+      · exact (one_div_pos.mpr (hg1 _)).le
+      · exact le_rfl
+    · simp only [inCell, Bool.and_eq_true, beq_iff_eq] at hc
+      simp [hc.1.2, hc.2, hg1]
+  -- arm 0: the fluctuation enters with the opposite sign
+  have z0 := arm_score_zero σ l S hS false g0 Q hQ (fun s => lg (Q s false)) (fun s hs => hσlg s hs false)
+  have he2 : e2 = 0 := by
+    have h0' : sumIf (fun r => r.a == false && r.obs)
+        (fun r => (1 / g0 r.s) * (r.w * (r.y - σ (lg (Q r.s false) + (-e2) / g0 r.s)))) l = 0 := by
+      rw [← h0]; apply sumIf_congr; intro r _; rw [neg_div, ← sub_eq_add_neg]
+    rw [arm_score_form σ l hw false g0 (fun s => lg (Q s false)) (-e2)] at h0'
+    rw [arm_score_form σ l hw false g0 (fun s => lg (Q s false)) 0] at z0
+    obtain ⟨r₀, hr₀, hc⟩ := hpos.2 s₀ hs₀ false
+    have := score_root_unique σ hσ l _ _ _ ?_ r₀ hr₀ ?_ (-e2) 0 h0' z0
+    · exact neg_eq_zero.mp this
+    · intro r _; split
+      · exact (one_div_pos.mpr (hg0 _)).le
+      · exact le_rfl
+    · simp only [inCell, Bool.and_eq_true, beq_iff_eq] at hc
+      simp [hc.1.2, hc.2, hg0]
+  refine ⟨he1, he2, ?_, ?_⟩
+  · rw [risk1_eq σ lg e1 e2 l hw Q g1 g0, he1]
+    rw [gformula_congr l _ (fun r => Q r.s) _ true
+      (fun r hr => by simp only [zero_div, add_zero]; exact hσlg r.s (hS.2 r hr) true)]
+    exact gformula_of_outfit l S hS hpos Q hQ _ true
+  · rw [risk0_eq σ lg e1 e2 l hw Q g1 g0, he2]
+    rw [gformula_congr l _ (fun r => Q r.s) _ false
+      (fun r hr => by simp only [zero_div, sub_zero]; exact hσlg r.s (hS.2 r hr) false)]
+    exact gformula_of_outfit l S hS hpos Q hQ _ false
+
+/-- C01's TMLE clause: both nuisance models saturated (a special case of either half) -/
+theorem tmle_saturated (σ lg : F → F) (l : List (Row F)) (S : List Nat) (hS : Strata l S) (hpos : Positivity l S)
+    (hw : ∀ r ∈ l, r.w = 1) (Q : Nat → Bool → F) (p : Nat → F) (hp : PropFit l S p)
+    (q : Nat → Bool → F) (hq : MissFit l S q) (e1 e2 : F)
+    (h1 : Tmle.eff1 σ lg e1 (l.map (toT Q (fun s => p s * q s true) (fun s => (1 - p s) * q s false))) = 0)
+    (h0 : Tmle.eff0 σ lg e2 (l.map (toT Q (fun s => p s * q s true) (fun s => (1 - p s) * q s false))) = 0) :
+    let t := Tmle.targets σ lg e1 e2 (l.map (toT Q (fun s => p s * q s true) (fun s => (1 - p s) * q s false)))
+    Tmle.rrOf t = std l S Tgt.pop.mem true / std l S Tgt.pop.mem false ∧
+    Tmle.orOf t = (std l S Tgt.pop.mem true / (1 - std l S Tgt.pop.mem true))
+      / (std l S Tgt.pop.mem false / (1 - std l S Tgt.pop.mem false)) := by
+  intro t
+  obtain ⟨a, b⟩ := tmle_dr_treatment σ lg l S hS hpos hw Q p hp q hq e1 e2 h1 h0
+  refine ⟨?_, ?_⟩ <;> simp only [Tmle.rrOf, Tmle.orOf, t, a, b, Nat.cast_one]
 
 /-! ### Witnesses -/
 
